@@ -105,6 +105,13 @@ CLAIMS = {
    note="group-level only: encodings / clamping of the sampled secrets and the adapter byte offsets (witness[2:34]) are exercised, not proved.",
    technique="Lean 4 proof (group algebra, induction over the hop list, Mathlib) + independent-arithmetic oracle over setup histories",
    design="§5 C18"),
+ 'C19': dict(
+   text="Proved for every history of add / remove / reset operations (induction over the history): the list-based registry state machine (append-unless-present, erase, clear - as the implementation after repair F7) never lists an entry twice and lists an entry exactly when the set specification says so (the last operation concerning it - an add / remove of it or a reset of its scope - is an add); "
+        "operations on one scope leave the others unchanged; a run is a function of its arguments only (no hidden state, by type). "
+        "Tie: the implementation is driven through bounded-exhaustive per-registry histories (length <= 4 quick / 5 thorough) and random mixed histories of length 6-40 over plugins (plain functions, bound methods that are a fresh equal object on each access, callables with __eq__), contracts, interfaces, aliases, probe runs and compile / assemble calls; after every step registry contents, what a probe run consults, compile / assemble results vs fresh-process baselines, and the caller's dicts are checked against the set specification.",
+   note="Python object identity vs equality of plugin callables is exercised by the object kinds above, not modelled; the dict-backed registries are the same machine without reset.",
+   technique="Lean 4 proof (refinement of a list-based registry to a history-defined set specification, induction over histories) + history-driven oracle on the implementation",
+   design="§5 C19"),
  'C10': dict(
    text="Lean theorems over all integers / all byte strings: bytesToInt (intToBytes n) = some n, decoding total exactly on non-empty strings, decoded range, "
         "top bit of the encoding = sign, and minimality of the encoding (no shorter string decodes to n). The model is tied to int_to_bytes / bytes_to_int / "
